@@ -84,19 +84,16 @@ class CollectiveAnomalyDetector(BaseDetector):
         The start and end points of the intervals can be accessed by
         `output["ilocs"].array.left` and `output["ilocs"].array.right`, respectively.
         """
-        # The sparse format only uses integer positions, so we reset the index.
-        y_dense = y_dense["labels"].reset_index(drop=True)
+        # The sparse format only uses integer positions, so the index is dropped.
+        labels = y_dense["labels"].to_numpy()
 
-        y_anomaly = y_dense.loc[y_dense.values > 0]
-        anomaly_locations_diff = y_anomaly.index.diff()
-
-        first_anomaly_start = y_anomaly.index[:1].to_numpy()
-        anomaly_starts = y_anomaly.index[anomaly_locations_diff > 1]
-        anomaly_starts = np.insert(anomaly_starts, 0, first_anomaly_start)
-
-        last_anomaly_end = y_anomaly.index[-1:].to_numpy() + 1
-        anomaly_ends = y_anomaly.index[np.roll(anomaly_locations_diff > 1, -1)] + 1
-        anomaly_ends = np.insert(anomaly_ends, len(anomaly_ends), last_anomaly_end)
+        # An anomaly is a maximal run of one positive label: it starts where the
+        # label differs from the previous row's and ends where it differs from the
+        # next row's, so adjacent anomalies with different labels stay separate.
+        previous_labels = np.concatenate(([0], labels[:-1]))
+        next_labels = np.concatenate((labels[1:], [0]))
+        anomaly_starts = np.flatnonzero((labels > 0) & (labels != previous_labels))
+        anomaly_ends = np.flatnonzero((labels > 0) & (labels != next_labels)) + 1
 
         anomaly_intervals = list(zip(anomaly_starts, anomaly_ends))
         return CollectiveAnomalyDetector._format_sparse_output(
